@@ -467,3 +467,12 @@ Example C07_roundtrip_atlas_begin_nonvacuous :
   /\ roundtrip FAtlas opts_mysql [] ex_trigger_plan = planned opts_mysql semi ex_trigger_plan
   /\ roundtrip FGolangMigrate opts_mysql [] ex_trigger_plan <> planned opts_generic semi ex_trigger_plan.
 Proof. repeat split; vm_compute; try reflexivity; discriminate. Qed.
+
+(** DBMate directives with options (repaired, C07-dbmate-directive-options): the direction is the
+    first field after "-- migrate:"; before the fix "-- migrate:up transaction:false" was not
+    recognised and the file was read as empty. *)
+Theorem C07_dbmate_options_repaired :
+  texts (read FDBMate opts_generic w_dbmate_options)
+  = Some [bs "CREATE TABLE t1 (a int);"%string; bs "CREATE TABLE t2 (a int);"%string].
+Proof. exact dbmate_options_repaired. Qed.
+Print Assumptions C07_dbmate_options_repaired.
